@@ -1,0 +1,171 @@
+//! Verification hooks, only compiled with the `verif-hooks` feature.
+//!
+//! Nothing in here is part of the public API of the crate. The module offers
+//! three things to an external test harness:
+//!
+//! * named yield points ([`Point`]) inside the item vector, `Nucleo::tick` and
+//!   the background worker at which an installed hook function is called,
+//! * a facade ([`BoxcarVec`]) over the crate private lock-free item vector,
+//! * a facade ([`par_quicksort`]) over the crate private parallel sort.
+use std::sync::atomic::{AtomicBool, AtomicUsize, Ordering};
+
+use crate::{boxcar, Item, Utf32String};
+
+/// A named location in the crate at which the installed hook is invoked.
+#[derive(Debug, Clone, Copy, PartialEq, Eq, Hash, PartialOrd, Ord)]
+#[repr(u8)]
+pub enum Point {
+    /// `boxcar::Vec::push`/`extend`: before the index counter is incremented
+    VecBeforeReserve,
+    /// `boxcar::Vec::push`/`extend`: after the index counter was incremented
+    VecAfterReserve,
+    /// `boxcar::Vec::push`/`extend`: before a bucket pointer is loaded
+    VecBeforeBucketLoad,
+    /// `boxcar::Vec::get_or_alloc`: before the compare exchange
+    VecBeforeAllocCas,
+    /// `boxcar::Vec::push`/`extend`: before an entry is marked active
+    VecBeforeActiveStore,
+    /// `boxcar::Vec::push`/`extend`: after an entry was marked active
+    VecAfterActiveStore,
+    /// `boxcar::Vec::get`/`get_unchecked`: before the bucket pointer is loaded
+    VecGetBeforeBucketLoad,
+    /// `boxcar::Vec::get`/`get_unchecked`: before the active flag is loaded
+    VecGetBeforeActiveLoad,
+    /// `boxcar::Vec::count`: before the index counter is loaded
+    VecBeforeCountLoad,
+    /// `boxcar::Vec::snapshot`/`par_snapshot`: before the index counter is loaded
+    VecBeforeSnapshotLoad,
+    /// `boxcar::Iter::next`: before the bucket pointer is loaded
+    IterBeforeBucketLoad,
+    /// `boxcar::Iter::next`: before the active flag is loaded
+    IterBeforeActiveLoad,
+    /// `Nucleo::tick`: after `should_notify` was cleared
+    TickAfterClearNotify,
+    /// `Nucleo::tick_inner`: before the timed lock attempt
+    TickBeforeTryLock,
+    /// `Nucleo::tick_inner`: the timed lock attempt failed
+    TickTryLockFailed,
+    /// `Nucleo::tick_inner`: `should_notify` was set again after a failed lock attempt
+    TickAfterRearm,
+    /// `Nucleo::tick_inner`: the worker lock was acquired
+    TickLockTaken,
+    /// `Nucleo::tick_inner`: immediately before a run is spawned on the pool
+    TickBeforeSpawn,
+    /// `Worker::run`: entry
+    RunEntry,
+    /// `Worker::run`: after the state was reset for a new item stream
+    RunAfterClearedReset,
+    /// `Worker::run`: after `reset_matches` (empty pattern and rescore paths)
+    RunAfterResetMatches,
+    /// `Worker::run`: after new items were scanned / old matches rescored
+    RunAfterScan,
+    /// `Worker::run`: before the matches are sorted
+    RunBeforeSort,
+    /// `Worker::run`: after the matches were sorted
+    RunAfterSort,
+    /// `Worker::run`: immediately before `should_notify` is read
+    RunBeforeNotifyCheck,
+    /// `Worker::run`: after the notify decision was taken (and notify called)
+    RunAfterNotify,
+    /// `Worker::run`: immediately before returning
+    RunReturn,
+}
+
+static HOOK: AtomicUsize = AtomicUsize::new(0);
+
+/// Installs (or removes) the hook function that is called at every [`Point`].
+///
+/// While no hook is installed a yield point is a single relaxed load.
+pub fn set_hook(hook: Option<fn(Point)>) {
+    HOOK.store(hook.map_or(0, |hook| hook as usize), Ordering::SeqCst);
+}
+
+#[inline]
+pub(crate) fn hit(point: Point) {
+    let hook = HOOK.load(Ordering::Relaxed);
+    if hook != 0 {
+        // safety: only ever written by `set_hook` from a valid function pointer
+        let hook: fn(Point) = unsafe { std::mem::transmute::<usize, fn(Point)>(hook) };
+        hook(point)
+    }
+}
+
+/// Facade over the crate private lock-free item vector.
+pub struct BoxcarVec<T>(boxcar::Vec<T>);
+
+impl<T> BoxcarVec<T> {
+    /// see `boxcar::Vec::with_capacity`
+    pub fn with_capacity(capacity: u32, columns: u32) -> Self {
+        BoxcarVec(boxcar::Vec::with_capacity(capacity, columns))
+    }
+
+    /// see `boxcar::Vec::columns`
+    pub fn columns(&self) -> u32 {
+        self.0.columns()
+    }
+
+    /// see `boxcar::Vec::count`
+    pub fn count(&self) -> u32 {
+        self.0.count()
+    }
+
+    /// see `boxcar::Vec::push`
+    pub fn push(&self, value: T, fill_columns: impl FnOnce(&T, &mut [Utf32String])) -> u32 {
+        self.0.push(value, fill_columns)
+    }
+
+    /// see `boxcar::Vec::extend`
+    pub fn extend<I>(&self, values: I, fill_columns: impl Fn(&T, &mut [Utf32String]))
+    where
+        I: IntoIterator<Item = T> + ExactSizeIterator,
+    {
+        self.0.extend(values, fill_columns)
+    }
+
+    /// see `boxcar::Vec::get`
+    pub fn get(&self, index: u32) -> Option<Item<'_, T>> {
+        self.0.get(index)
+    }
+
+    /// see `boxcar::Vec::get_unchecked`
+    ///
+    /// # Safety
+    ///
+    /// Entry at `index` must be initialized.
+    pub unsafe fn get_unchecked(&self, index: u32) -> Item<'_, T> {
+        self.0.get_unchecked(index)
+    }
+
+    /// Runs `f` for every element of `boxcar::Vec::snapshot(start)` and returns
+    /// the end of the snapshot.
+    pub fn snapshot(&self, start: u32, mut f: impl FnMut(u32, Option<Item<'_, T>>)) -> u32 {
+        let iter = unsafe { self.0.snapshot(start) };
+        let end = iter.end();
+        for (idx, item) in iter {
+            f(idx, item)
+        }
+        end
+    }
+}
+
+impl<T: Send + Sync> BoxcarVec<T> {
+    /// Runs `f` for every element of `boxcar::Vec::par_snapshot(start)` (on the
+    /// current rayon pool) and returns the end of the snapshot.
+    pub fn par_snapshot(&self, start: u32, f: impl Fn(u32, Option<Item<'_, T>>) + Sync) -> u32 {
+        use rayon::iter::ParallelIterator;
+        let iter = unsafe { self.0.par_snapshot(start) };
+        let end = iter.end();
+        iter.for_each(|(idx, item)| f(idx, item));
+        end
+    }
+}
+
+/// Facade over the crate private cancellable parallel sort. Returns whether the
+/// sort reports that it was canceled.
+pub fn par_quicksort<T, F>(v: &mut [T], is_less: F, canceled: &AtomicBool) -> bool
+where
+    T: Send,
+    F: Fn(&T, &T) -> bool + Sync,
+{
+    crate::par_sort::par_quicksort(v, is_less, canceled)
+}
